@@ -244,10 +244,15 @@ func GroupMutedBy(t *Truth) *Report {
 				continue
 			}
 			// all alerts of the group must have been in it for the whole window as well (a flush must have happened)
+			// ... at every instant of it: an alert that timed out and was sent again inside the window (even at the
+			// very same instant - a tie the scheduler decides) may have had its group destroyed and re-created,
+			// and a group that has not flushed yet has nothing to report
 			stable := true
 			for _, a := range g.Alerts {
-				if !r.Alerts.SurelyFiring(a.Labels.Key(), from) {
-					stable = false
+				for _, x := range t.Samples(from, p.T) {
+					if !r.Alerts.SurelyFiring(a.Labels.Key(), x) {
+						stable = false
+					}
 				}
 			}
 			if !stable {
